@@ -6,6 +6,7 @@ import collections.abc as cabc
 import os
 import shutil
 import tempfile
+import time
 import typing as ty
 from pathlib import Path
 
@@ -566,7 +567,10 @@ def one_case(ctx, rng, base, mode, spec=None):
                 "taken": mode != "direct" and "_result.pklz" in names}
         head = coqio.pair(enc_table(sb, table), coqio.string(sb.dest_canon), enc_snap(c0), coqio.lst(enc_in))
         if err is not None:
-            meta.update(result="error", error=err, error_text=errtxt)
+            before = {p: c for p, _, c in c0}
+            changed = ["/".join(sb.cpath(q)) for q in sb.sources
+                       if os.path.lexists(q) and before.get(sb.cpath(q)) != sb.content(q)]
+            meta.update(result="error", error=err, error_text=errtxt, sources_changed=changed)
             term = coqio.pair(head[1:-1], "(OErr %s)" % oerr(err))
         else:
             c1 = sb.snapshot(hide=hide)
@@ -594,20 +598,29 @@ def classify(meta):
 def run(ctx):
     rng = ctx.rng
     base = tempfile.mkdtemp(prefix="verif-c33-", dir="/tmp")
-    n_direct = int(os.environ.get('C33_DIRECT', ctx.budget(170, 1800)))
-    n_wf = int(os.environ.get('C33_WF', ctx.budget(18, 180)))
+    n_direct = int(os.environ.get('C33_DIRECT', ctx.budget(170, 1500)))
+    n_wf = int(os.environ.get('C33_WF', ctx.budget(18, 150)))
+    # the machine is shared: generation also stops on a wall-clock limit (never below a floor); the counts that
+    # were actually run are what the evidence reports
+    limit = (60 if ctx.tier == "quick" else 400) * min(ctx.widen, 3)
+    floor_direct, floor_wf = (60, 8) if ctx.tier == "quick" else (400, 40)
     cases, metas = [], []
     try:
         for spec in ctx.corpus():
             t, m = one_case(ctx, rng, base, spec.get("mode", "direct"), spec=spec)
             cases.append(t)
             metas.append(m)
-        for i in range(n_direct):
-            t, m = one_case(ctx, rng, base, "direct")
+        t0 = time.time()
+        for i in range(n_wf):
+            if i >= floor_wf and time.time() - t0 > limit * 0.3:
+                break
+            t, m = one_case(ctx, rng, base, "workflow")
             cases.append(t)
             metas.append(m)
-        for i in range(n_wf):
-            t, m = one_case(ctx, rng, base, "workflow")
+        for i in range(n_direct):
+            if i >= floor_direct and time.time() - t0 > limit:
+                break
+            t, m = one_case(ctx, rng, base, "direct")
             cases.append(t)
             metas.append(m)
     finally:
@@ -638,7 +651,7 @@ def run(ctx):
         m = metas[i]
         out.failures.append(Failure(
             case={k: m[k] for k in ("mode", "values", "table", "pre")},
-            observed={k: m.get(k) for k in ("result", "outputs", "error_text", "dest_listing")},
+            observed={k: m.get(k) for k in ("result", "outputs", "error_text", "dest_listing", "sources_changed")},
             expected="collected: same shape, every file in the workflow directory with its content, sources intact, "
                      "distinct sources -> distinct destinations; no error",
             kind="spec", finding=classify(m),
